@@ -60,14 +60,16 @@ def s13():
         ids = sorted(set(r["id"] for r in hs))
         fa = sorted(set((r["id"], r["check"]) for r in hs if r["rc"] == 1))
         un = sorted(set((r["id"], r["check"]) for r in hs if r["rc"] == 2))
-        harmless = ("\n**False-alarm control.** %d behaviour-preserving refactorings written by two further sub-agents (renamed locals, "
+        harmless = ("\n**False-alarm control.** %d behaviour-preserving refactorings written by three further sub-agents (renamed locals, "
                     "reordered independent statements / match arms, `is_some()+unwrap()` → `if let`, merged or split or-patterns, extracted "
-                    "helpers, dropped redundant clones, loop → iterator, `return v;` → tail expression; kept under `/verif/harmless/`) were swept "
+                    "helpers, dropped redundant clones, loop → iterator, `return v;` ↔ tail expression, flipped conditions, `i = i + 1` → `i += 1`, "
+                    "`x %% 2 == 1` → `x %% 2 != 0`, introduced locals; kept under `/verif/harmless/`; the third batch targets the functions brought "
+                    "under contract last: `get_line_number`, `analyze_for_*`, `get_all_*`, the halving loop, `get_*_report_section`) were swept "
                     "with the checks of the properties anchored in the touched files (`tools/sweep_harmless.py`): **%d VIOLATION lines** "
-                    "(false alarms: %s); %d (refactoring, check) pairs ended UNDECIDED (exit 2) because an annotation anchor was lost or the "
-                    "new code uses a construct Verus does not accept (iterator adapters, an extracted helper without a contract): %s. "
-                    "After the role-based anchors of §3.4 were introduced three of those (renamed `target_nodes`, dropped `.clone()`, tail "
-                    "expression in `extract_target*`) verify again.\n" % (len(ids), len(fa), fa or "none", len(un), ", ".join("%s/%s" % x for x in un)))
+                    "(false alarms: %s); %d (refactoring, check) pairs ended UNDECIDED (exit 2) because the new code uses a construct Verus does "
+                    "not accept (a loop turned into an iterator-adapter chain) or calls an extracted helper that has no contract: %s. "
+                    "Earlier sweeps had more: role-based anchors (§3.4), tolerant statement anchors and the tail anchor `^while` removed them.\n" % (
+                        len(ids), len(fa), fa or "none", len(un), ", ".join("%s/%s" % x for x in un)))
     txt = open(os.path.join(HERE, "docs_src", "s13_head.md")).read()
     txt = txt.replace("NSEEDED", str(len(metas))).replace("NCAUGHT", str(caught)).replace("ROWS", "\n".join(rows)).replace("HARMLESS", harmless)
     return txt
